@@ -311,4 +311,31 @@ theorem validateClaimNames_ok (d : Xrd) (c : Names) (h : validateClaimNames d = 
             rename_i h1 h2 h3 h4
             exact ⟨hc', h1, h2, h3, h4⟩
 
+/-! ### what is read of the author's schema -/
+
+theorem genSchema_read (s : Schema) (mx : Int) : genSchema (readSchema s) mx = genSchema s mx := by
+  have h1 : prop (readSchema s) "spec" = readSpec (prop s "spec") := rfl
+  have h2 : prop (readSchema s) "status" = readStatus (prop s "status") := rfl
+  have h3 : (prop (prop (readSchema s) "metadata") "name").maxLength = (prop (prop s "metadata") "name").maxLength := rfl
+  have hs : genSpec Xp.Gen.xcrdBaseProps (readSchema s) = genSpec Xp.Gen.xcrdBaseProps s := by
+    simp only [genSpec, h1]; rfl
+  have ht : genStatus Xp.Gen.xcrdBaseProps (readSchema s) = genStatus Xp.Gen.xcrdBaseProps s := by
+    simp only [genStatus, h2]; rfl
+  have hm : genMetadata Xp.Gen.xcrdBaseProps (readSchema s) mx = genMetadata Xp.Gen.xcrdBaseProps s mx := by
+    simp only [genMetadata, nameMaxLength, h3]
+  simp only [genSchema, hs, ht, hm]; rfl
+
+theorem genVersion_read (vr : Version) (mx : Int) : genVersion vr.read mx = genVersion vr mx := by
+  unfold genVersion Version.read
+  cases h : vr.schema with
+  | absent => rfl
+  | bad => rfl
+  | ok s => simp only [mkVersion, genSchema_read]
+
+theorem genVersions_read (vs : List Version) (mx : Int) (cols : List String) (mach : List (String × Schema)) :
+    genVersions (vs.map Version.read) mx cols mach = genVersions vs mx cols mach := by
+  induction vs with
+  | nil => rfl
+  | cons v rest ih => simp only [List.map_cons, genVersions, genVersion_read, ih]
+
 end Xp.C11
